@@ -24,6 +24,8 @@ impl Disc {
 }
 
 pub struct Pred {
+    /// contract -> every key it ever wrote in this history
+    pub ever_written: BTreeMap<String, std::collections::BTreeSet<Vec<u8>>>,
     /// failures met by the reference before each trace entry
     pub fail_before: Vec<usize>,
     pub ok: bool,
@@ -97,54 +99,77 @@ pub fn compare_traces(pred: &Pred, act: &Actual, top_ok_and_events_agree: Option
             let ak = a.map(|e| e.kind);
             let mut owners: Vec<&'static str> = vec![];
             let mut what = "call sequence differs".to_string();
+            let a_node = a.and_then(|e| e.node);
+            // pass 1: a reply that can be pinned to one sub-message (spurious or missing)
             for w in &whys {
                 match w {
-                    Why::ReplyDue { child_ok, reply_node } if !(ak == Some(Kind::Reply) && a.and_then(|e| e.node) == Some(*reply_node)) => {
-                        owners.push("C03");
-                        if !child_ok {
-                            owners.push("C02");
-                        }
-                        what = format!("the reply for this sub-message is due here (sub-message {})", if *child_ok { "succeeded" } else { "failed" });
-                    }
-                    Why::NoReply { reply_node, child_ok } if ak == Some(Kind::Reply) && a.and_then(|e| e.node) == Some(*reply_node) => {
+                    Why::NoReply { reply_node, child_ok } if ak == Some(Kind::Reply) && a_node == Some(*reply_node) => {
                         owners.push("C03");
                         if !child_ok {
                             owners.push("C02");
                         }
                         what = "reply invoked although (outcome, reply_on) forbids it".into();
                     }
-                    Why::AfterUncaught => {
-                        owners.push("C02");
-                        what = "an uncaught failure must stop the parent here".into();
-                    }
-                    Why::AfterCaught => {
-                        owners.push("C02");
-                        what = "a caught failure must let the parent continue here".into();
-                    }
-                    Why::Overdraft => {
-                        owners.push("C05");
-                        what = "the callee must not run: attached funds cannot be paid".into();
-                    }
-                    Why::AfterMalformed => {
-                        owners.push("C13");
-                        what = "the previous response is malformed and must count as a failure".into();
-                    }
-                    Why::Starts if matches!(pk, Some(Kind::Instantiate) | Some(Kind::Migrate)) => {
-                        owners.push("C11");
-                        if pk == Some(Kind::Migrate) {
-                            owners.push("C12");
-                        }
-                        what = "the registry must accept this request and run the entry point of the stored code".into();
-                    }
-                    Why::RegistryReject if matches!(ak, Some(Kind::Instantiate) | Some(Kind::Migrate)) => {
-                        owners.push("C11");
-                        what = "the registry must reject this request (unknown code id, duplicate address, invalid salt, empty label or no such contract)".into();
-                    }
-                    Why::Unauthorized if ak == Some(Kind::Migrate) => {
-                        owners.push("C12");
-                        what = "only the current admin may migrate".into();
-                    }
                     _ => {}
+                }
+            }
+            if owners.is_empty() {
+                for w in &whys {
+                    if let Why::ReplyDue { child_ok, reply_node } = w {
+                        if !(ak == Some(Kind::Reply) && a_node == Some(*reply_node)) {
+                            owners.push("C03");
+                            if !child_ok {
+                                owners.push("C02");
+                            }
+                            what = format!("the reply for this sub-message is due here (sub-message {})", if *child_ok { "succeeded" } else { "failed" });
+                        }
+                    }
+                }
+            }
+            // pass 2: other explanations
+            if owners.is_empty() {
+                for w in &whys {
+                    match w {
+                        Why::AfterUncaught => {
+                            owners.push("C02");
+                            what = "an uncaught failure must stop the parent here".into();
+                        }
+                        Why::AfterCaught => {
+                            owners.push("C02");
+                            what = "a caught failure must let the parent continue here".into();
+                        }
+                        Why::Overdraft if matches!(ak, Some(Kind::Execute) | Some(Kind::Instantiate)) => {
+                            owners.push("C05");
+                            what = "the callee must not run: attached funds cannot be paid".into();
+                        }
+                        Why::AfterMalformed => {
+                            owners.push("C13");
+                            what = "the previous response is malformed and must count as a failure".into();
+                        }
+                        _ => {}
+                    }
+                }
+            }
+            if owners.is_empty() {
+                for w in &whys {
+                    match w {
+                        Why::Starts if matches!(pk, Some(Kind::Instantiate) | Some(Kind::Migrate)) => {
+                            owners.push("C11");
+                            if pk == Some(Kind::Migrate) {
+                                owners.push("C12");
+                            }
+                            what = "the registry must accept this request and run the entry point of the stored code".into();
+                        }
+                        Why::RegistryReject if matches!(ak, Some(Kind::Instantiate) | Some(Kind::Migrate)) => {
+                            owners.push("C11");
+                            what = "the registry must reject this request (unknown code id, duplicate address, invalid salt, empty label or no such contract)".into();
+                        }
+                        Why::Unauthorized if ak == Some(Kind::Migrate) => {
+                            owners.push("C12");
+                            what = "only the current admin may migrate".into();
+                        }
+                        _ => {}
+                    }
                 }
             }
             if owners.is_empty() {
@@ -177,9 +202,16 @@ pub fn compare_traces(pred: &Pred, act: &Actual, top_ok_and_events_agree: Option
                 "own balance at entry"
             };
             // after a failure earlier in the same call a wrong balance may as well be a missing rollback
-            let suspect_rollback = field == "own balance at entry" && pred.fail_before.get(i).copied().unwrap_or(0) > 0;
+            let after_failure = field == "own balance at entry" && pred.fail_before.get(i).copied().unwrap_or(0) > 0;
+            let callee_entry = matches!(p.kind, Kind::Execute | Kind::Instantiate);
             return Some(Disc::new(
-                if suspect_rollback { &["C02", "C05"] } else { &["C05"] },
+                if after_failure && !callee_entry {
+                    &["C02"]
+                } else if after_failure {
+                    &["C02", "C05"]
+                } else {
+                    &["C05"]
+                },
                 format!("trace:{}", field.replace(' ', "-")),
                 format!("trace position {} ({}): {} differs: expected {:?}/{:?}/{:?}/{:?}/{:?}, contract saw {:?}/{:?}/{:?}/{:?}/{:?}", i, entry_brief(p), field, p.contract, p.sender, p.funds, p.block, p.own_balance, a.contract, a.sender, a.funds, a.block, a.own_balance),
             ));
@@ -220,10 +252,17 @@ pub fn compare_traces(pred: &Pred, act: &Actual, top_ok_and_events_agree: Option
             return Some(Disc { owners, sig: "reply:content".into(), msg: format!("trace position {} ({}): Reply carries events [{}] data {:?}; the sub-message produced events [{}] data {:?}", i, entry_brief(p), events_str(&ar.events), ar.data.as_deref().map(hexs), events_str(&pr.events), pr.data.as_deref().map(hexs)), model_free: false });
         }
         if p.reads != a.reads {
-            return Some(Disc::new(if pred.fail_before.get(i).copied().unwrap_or(0) > 0 { &["C02", "C08"] } else { &["C08", "C01"] }, "trace:reads", format!("trace position {} ({}): storage reads differ: contract saw {:?}, expected {:?}", i, entry_brief(p), a.reads, p.reads)));
+            // a key this contract never wrote is an isolation problem; otherwise, after a failure
+            // earlier in the call, a rollback problem; otherwise persistence / isolation
+            let foreign = a.reads.iter().any(|r| match r {
+                crate::engines::tree::puppet::ReadRes::Scanned(kv) => kv.iter().any(|(k, _)| !pred.ever_written.get(&a.contract).map_or(false, |s| s.contains(k))),
+                _ => false,
+            });
+            let after_failure = pred.fail_before.get(i).copied().unwrap_or(0) > 0;
+            return Some(Disc::new(if foreign && after_failure { &["C02", "C08"] } else if foreign { &["C08"] } else if after_failure { &["C02"] } else { &["C08", "C01"] }, "trace:reads", format!("trace position {} ({}): storage reads differ: contract saw {:?}, expected {:?}", i, entry_brief(p), a.reads, p.reads)));
         }
         if p.pre_queries != a.pre_queries || p.queries != a.queries {
-            return Some(Disc::new(if pred.fail_before.get(i).copied().unwrap_or(0) > 0 { &["C02", "C10"] } else { &["C10"] }, "trace:query-results", format!("trace position {} ({}): query results differ: contract was told {:?} / {:?}, state at that point gives {:?} / {:?}", i, entry_brief(p), a.pre_queries, a.queries, p.pre_queries, p.queries)));
+            return Some(Disc::new(if pred.fail_before.get(i).copied().unwrap_or(0) > 0 { &["C02"] } else { &["C10"] }, "trace:query-results", format!("trace position {} ({}): query results differ: contract was told {:?} / {:?}, state at that point gives {:?} / {:?}", i, entry_brief(p), a.pre_queries, a.queries, p.pre_queries, p.queries)));
         }
         return Some(Disc::new(&["C02"], "trace:entry", format!("trace position {} differs: {:?} vs {:?}", i, p, a)));
     }
@@ -313,8 +352,8 @@ pub fn compare_state(pred: &Observed, act: &Observed, failures: usize, ever_writ
                     out.push(Disc { owners, sig: "state:contract-storage".into(), msg: format!("contract {} storage after the call differs from the expected one: {}", addr, detail), model_free: false });
                 }
             }
-            (Some(_), None) => out.push(Disc::new(&["C11", rollback_owner], "state:contract-missing", format!("contract {} should exist after the call", addr))),
-            (None, Some(_)) => out.push(Disc::new(&["C11", rollback_owner], "state:contract-unexpected", format!("contract {} exists after the call but its instantiation failed or never happened", addr))),
+            (Some(_), None) => out.push(Disc::new(if failures > 0 { &["C02"] } else { &["C11", "C01"] }, "state:contract-missing", format!("contract {} should exist after the call", addr))),
+            (None, Some(_)) => out.push(Disc::new(if failures > 0 { &["C02"] } else { &["C11", "C01"] }, "state:contract-unexpected", format!("contract {} exists after the call but its instantiation failed or never happened", addr))),
             (None, None) => {}
         }
     }
